@@ -25,10 +25,10 @@ import (
 	"google.golang.org/grpc/resolver"
 )
 
-// Ev is one script event.  K: req pass dial failgo release cancel closego.
+// Ev is one script event.  K: req pass dial failgo release cancel closego again.
 type Ev struct {
 	K    string `json:"k"`
-	I    int    `json:"i"`              // thread (req pass release cancel), creator of the dial (dial failgo), handle (closego)
+	I    int    `json:"i"`              // thread (req pass release cancel again), creator of the dial (dial failgo), handle (closego)
 	A    int    `json:"a,omitempty"`    // req: address
 	ND   bool   `json:"nd,omitempty"`   // req: name a dialer that does not exist
 	OK   bool   `json:"ok,omitempty"`   // dial: succeed
@@ -71,6 +71,7 @@ type thread struct {
 	returned bool
 	done     func()
 	releases int
+	agains   int
 	busy     bool // a command has been handed over and is not finished
 	stopped  bool // the command channel is closed
 }
@@ -483,8 +484,28 @@ func (c *ctl) enabled(e Ev) bool {
 	case "closego":
 		_, ok := c.pClose[e.I]
 		return ok
+	case "again":
+		// one more caller of a done function whose call is in flight (the
+		// closer, or the release that is blocked behind the parked Close)
+		t, ok := c.threads[e.I]
+		return ok && c.parked >= 0 && t.returned && t.busy
 	}
 	return false
+}
+
+// again calls the done function of t from one more goroutine.
+func (c *ctl) again(t *thread) {
+	defer func() {
+		if r := recover(); r != nil {
+			c.mu.Lock()
+			c.bad, c.msg = 1, fmt.Sprint("panic in done: ", r)
+			c.mu.Unlock()
+		}
+	}()
+	t.done()
+	c.mu.Lock()
+	c.reldone = append(c.reldone, t.id)
+	c.mu.Unlock()
 }
 
 func lockKind(k string) bool { return k == "req" || k == "failgo" || k == "release" }
@@ -571,6 +592,12 @@ func (c *ctl) do(e Ev) Obs {
 		c.canceled[e.I] = true
 		c.mu.Unlock()
 		cancel()
+	case "again":
+		c.mu.Lock()
+		t = c.threads[e.I]
+		t.agains++
+		c.mu.Unlock()
+		go c.again(t)
 	case "closego":
 		c.mu.Lock()
 		ch := c.pClose[e.I]
